@@ -130,6 +130,26 @@ check("C31", "E2 enum", "exploration",
       "Quote bodies binding/reading/assigning locals a and b hygienically or through !{unhygienic(...)}, callers defining none/a/b/both and printing them after the call, arguments a, a+b, 7, call site top-level or in a method, plus a probe reading a macro-defined name after the call: each program's behaviour must equal a Go model of the hand-expanded program with the macro's locals renamed apart (the model is validated by running the renamed expansion through Elk) and the printed expansion.",
       "unquote_ident, pattern/type macros, nested macro calls are outside the space; three situations the statement leaves open are only counted")
 
+check("C27", "E2 enum", "exploration",
+      "bounded-exhaustive enumeration of REPL input histories (all sequences of length 3 over 14 inputs; thorough length 3 over 21 and length 4 over 12) with incremental-vs-batch and rejected-inputs-removed differential oracles",
+      "Every history over an alphabet of definitions, uses, redefinitions, class reopenings, six inputs rejected in different checker phases after declaring something, and a runtime error after a side effect is run through a mirror of repl.evaluator (one incremental checker, one persistent VM thread); each accepted input must print what a fresh batch program of all previously accepted inputs plus it prints, and the session with its rejected inputs removed must give the same verdicts and outputs for the remaining inputs.",
+      "the repl package's prompt/printing wrapper is mirrored through the exported API, not executed; macros, using, typedef are outside the alphabet")
+
+check("C28", "E2 enum", "exploration",
+      "exhaustive walk of the std type environment: every declared method x every admissible arity x receiver and argument literal pools, observed on the VM",
+      "Every method of the 425 Std namespaces (2 719 entries; quick: a fixed core subset of 1 330) is called with up to 3 receivers per type, every arity from required to required+optional and argument tuples from per-type pools; the call must not fail with NoMethodError / wrong argument count / Go panic, the result's runtime class must be an instance of the declared return type (classes, mixins, unions, nilable, literal types, self; interfaces by method presence), and a thrown value an instance of the declared throw type or an unchecked error.",
+      "returns typed by method-level type parameters, callables and singleton types are undecidable (counted); blocking, I/O and process-control methods are excluded by an explicit list printed into the evidence")
+
+check("C32", "E2 enum", "exploration",
+      "bounded-exhaustive enumeration of call chains (depth <=3, thorough 4) over 7 frame kinds x filler-line vectors x construct contexts, comparing the uncaught error's stack trace with the known chain",
+      "Every chain over {method, instance method, module method, closure, closure passed to a native iterator, generator, async function} with an uncaught throw at the leaf, 0-2 filler statements before each call site and the throw, call sites inside if/while/do-finally/do-catch/switch/continuation lines, two throw forms: the frames of the program file in thread.ErrStackTrace() must be exactly the chain, outermost first, with matching method names and call-site / throw lines.",
+      "native frame labels and closure/top-level names are not asserted; tail-position calls are never generated")
+
+check("C34", "E2 enum", "exploration",
+      "bounded-exhaustive enumeration of suite trees (<=2 levels, <=4 cases) x pass/fail/error outcomes x filter sets of size <=2, in-process and through the built CLI, against an independent selector",
+      "Every ordered suite tree with <=4 cases, outcome assignments, and every filter set of size <=2 drawn from two --grep patterns, file/glob paths and --path file:L for every line L: the generated .elk.test is registered and run in-process the way cmd/elk does (and a subset through the real `elk test` binary built from /repo); the executed multiset must equal the cases selected by a 40-line independent selector and the exit status must be failure exactly when an executed case failed or errored.",
+      "before/after hooks and describes nested deeper than 2 are outside the space; a second --grep overrides the first in the CLI and is not part of the space")
+
 NOT_YET = "check not built yet in this round (planned, see DESIGN.md section 5)"
 NA = {}
 
